@@ -7,7 +7,8 @@
    callback (copied at callback time) as a complete byte literal.
 
    code 1: the segments differ bytewise from [segment_tcp]/[segment_udp] (and, for small cases, from the in-place
-           replay [segment_*_inplace]), or an error is returned where the model returns segments / vice versa;
+           replay [segment_*_inplace]), or segments are yielded where the model returns an error, or a panic; an
+           error returned for an input OUTSIDE the property's hypotheses is always accepted (stricter validation);
    code 2: the input satisfies the property's hypotheses ([wf_tcpb]/[wf_udpb]) and the executable specification
            [spec_ok] rejects what the implementation yielded (or it refused / panicked). [spec_ok] does not use
            the model: it re-derives everything from the input and the observed bytes - payload concatenation and
@@ -109,11 +110,16 @@ Definition obs_of (res : option (list packed)) : option (list (list N)) * bool :
 Definition small (pkt : list N) (hl g : nat) : bool :=
   (g =? 0)%nat || (N.of_nat (length pkt) * N.of_nat (seg_count (length pkt - hl) g) <=? 60000).
 
+Definition is_none {A} (o : option A) : bool := match o with None => true | Some _ => false end.
+
 Definition check_seg (tcp : bool) (pkt : list N) (hl cs g : nat) (obs : option (list (list N))) (panicked : bool) : list N :=
   let m := if tcp then segment_tcp pkt hl cs g else segment_udp pkt hl cs g in
   let wf := if tcp then wf_tcpb pkt hl cs g else wf_udpb pkt hl cs g in
-  flag 1 (negb panicked && segs_eqb m obs) ++
-  (if small pkt hl g
+  (* outside the property's hypotheses a returned error is always acceptable (a stricter validation is a harmless
+     change); segments that are yielded must be the model's *)
+  let tolerated := negb wf && is_none obs in
+  flag 1 (negb panicked && (tolerated || segs_eqb m obs)) ++
+  (if small pkt hl g && negb tolerated
    then flag 1 (segs_eqb (if tcp then segment_tcp_inplace pkt hl cs g else segment_udp_inplace pkt hl cs g) obs)
    else []) ++
   (if wf then flag 2 (match obs with Some segs => negb panicked && spec_ok tcp pkt hl cs g segs | None => false end)
